@@ -6,6 +6,7 @@ import (
 	"io"
 	"mime"
 	"net/http"
+	"net/url"
 	"strings"
 
 	"github.com/resgateio/resgate/server/codec"
@@ -71,12 +72,10 @@ func (s *Service) apiHandler(w http.ResponseWriter, r *http.Request) {
 		return
 	}
 
-	path := r.URL.RawPath
-	if path == "" {
-		path = r.URL.Path
-	}
-
-	apiPath := s.cfg.APIPath
+	// The path is unescaped, part by part, when it is turned into a resource
+	// ID. Use it as escaped by the client; r.URL.Path is already unescaped.
+	path := r.URL.EscapedPath()
+	apiPath := (&url.URL{Path: s.cfg.APIPath}).EscapedPath()
 
 	// NotFound on paths with trailing slash (unless it is only the APIPath)
 	if len(path) > len(apiPath) && path[len(path)-1] == '/' {
